@@ -31,6 +31,8 @@ pub enum Act {
     /// hand a weak handle obtained from the actor's own context (`Context::weak_sender` for
     /// `caller == false`, `Context::weak_caller` otherwise) to the clients, in store slot `x`
     Share { x: usize, caller: bool },
+    /// the same with `Context::weak_address` (nothing is handed out when that gives `None`)
+    ShareAddr { x: usize },
 }
 
 #[derive(Serialize, Deserialize, Clone, Debug, PartialEq)]
